@@ -66,8 +66,10 @@ Inductive stmt :=
 | SClose                               (* self._stream.close() *)
 | SOpenStream (writable : bool)        (* self._stream = self.path.open("r+b" | "rb")     the file exists *)
 | SUnpackRead (x : string) (h : hdr) (dflt : val)
-| SCall (body : stmt)                  (* self.<method>(...) as a statement (arguments bound just before): a `return` inside ends the call only *)
-| SCallRet (body : stmt)               (* return self.<method>(...): the callee's result (or None) is the caller's *)
+| SCall (args : list (string * expr)) (body : stmt)
+    (* self.<method>(...) as a statement: the callee's parameters are bound to the argument values in a scope of its own
+       (on top of the caller's variables); a `return` inside ends the call only; the caller's variables come back *)
+| SCallRet (args : list (string * expr)) (body : stmt)   (* return self.<method>(...): the callee's result (or None) is the caller's *)
 | STryElse (body handler els : stmt)   (* try: body  except: handler; raise  else: els *)
 | SUnmodelled.                         (* a statement outside the modelled fragment (creating a file): raises XOther here *)
     (* x = self._unpack_read(<struct>, dflt):  try: read(struct.size), unpack  except: dflt *)
@@ -220,6 +222,15 @@ Definition unpack (h : hdr) (b : bytes) : option val :=
   end.
 Definition hdr_size (h : hdr) : N := match h with HBlock => 5 | HFile => 32 end.
 
+(* the callee's parameters, evaluated in the caller's state [s], set in the state the callee starts from *)
+Fixpoint bind_args (s acc : state) (args : list (string * expr)) : res state :=
+  match args with
+  | [] => Val acc
+  | (p, e) :: rest => match eval s e with
+                      | Val v => bind_args s (set_local acc p v) rest
+                      | Exn z => Exn z end
+  end.
+
 (* while x := <cnd> : body   -- at most n iterations (out of fuel = XOther, excluded by every theorem) *)
 Fixpoint wloop (ec eb : state -> state * outcome) (x : string) (n : nat) (s : state) {struct n} : state * outcome :=
   match n with
@@ -303,20 +314,30 @@ Fixpoint exec (fuel : nat) (c : stmt) (s : state) {struct c} : state * outcome :
            | Some v => (set_local s1 x v, ONormal)
            | None => (set_local s1 x d, ONormal)
            end
-  | SCall body => let '(s1, o) := exec fuel body s in          (* the callee's local variables are its own: *)
-                  (restore_locals s1 (locals s),               (* the caller's come back when the call ends *)
-                   match o with
-                   | OReturn _ => ONormal
-                   | OBreak => ORaise XOther
-                   | _ => o
-                   end)
-  | SCallRet body => let '(s1, o) := exec fuel body s in
-                     (restore_locals s1 (locals s),
-                      match o with
-                      | ONormal => OReturn VNone
-                      | OBreak => ORaise XOther
-                      | _ => o
-                      end)
+  | SCall args body =>
+      match bind_args s s args with
+      | Exn z => (s, ORaise z)
+      | Val s0 =>
+          let '(s1, o) := exec fuel body s0 in
+          (restore_locals s1 (locals s),
+           match o with
+           | OReturn _ => ONormal
+           | OBreak => ORaise XOther
+           | _ => o
+           end)
+      end
+  | SCallRet args body =>
+      match bind_args s s args with
+      | Exn z => (s, ORaise z)
+      | Val s0 =>
+          let '(s1, o) := exec fuel body s0 in
+          (restore_locals s1 (locals s),
+           match o with
+           | ONormal => OReturn VNone
+           | OBreak => ORaise XOther
+           | _ => o
+           end)
+      end
   | STryElse body handler els =>
       let '(s1, o) := exec fuel body s in
       match o with
@@ -372,8 +393,7 @@ Fixpoint effects (fuel : nat) (c : stmt) (s : state) {struct c} : list effect :=
                    match eval s e with
                    | Val (VInt n) => if s_wr (strm s) then [ET n] else []
                    | _ => [] end
-  | SCall body => effects fuel body s
-  | SCallRet body => effects fuel body s
+  | SCall args body | SCallRet args body => match bind_args s s args with Val s0 => effects fuel body s0 | Exn _ => [] end
   | STryElse body handler els =>
       let '(s1, o) := exec fuel body s in
       effects fuel body s ++
